@@ -84,7 +84,8 @@ pub struct Case {
     #[serde(default)]
     pub ban_cfg: u8,
     /// further non-default configuration of the requester: bits 0-1 max_nodes_response (0 default, 1 -> 4,
-    /// 2 -> 100, 3 -> 64), bit 2 a table filter that only admits records with an even UDP port
+    /// 2 -> 100, 3 -> 64), bit 2 a table filter that only admits records with an even UDP port, bit 3 the
+    /// responder's IP is on the permit list
     #[serde(default)]
     pub q_cfg: u8,
 }
@@ -233,6 +234,12 @@ async fn run(case: &Case, rep: &mut CaseReport) -> Option<(String, String)> {
     let p_id = p_enr.node_id().raw();
     let p_addr = shaped_addr(P_KEY, Shape::V4, false).unwrap();
     let p_na = NodeAddress::new(p_addr, ids::node_id(&p_id));
+    if case.q_cfg & 8 != 0 {
+        // the responder's IP is on the requester's permit list (its node id is not): a permit entry
+        // exempts from filtering, it is no licence to answer with off-distance records
+        q.d.permit_ip(p_addr.ip());
+        rep.class("responder-ip-on-the-permit-list");
+    }
     if q.d.add_enr(p_enr.clone()).is_err() {
         return None;
     }
@@ -672,7 +679,7 @@ impl Property for C11 {
             answer,
             prop_oneof![2 => Just(vec![]), 1 => proptest::collection::vec(mal_packet(), 1..3)],
             prop_oneof![2 => Just(0u8), 1 => Just(1u8), 1 => Just(2u8)],
-            prop_oneof![4 => Just(0u8), 3 => 0u8..8],
+            prop_oneof![4 => Just(0u8), 3 => 0u8..16],
         )
             .prop_map(|(class, pat, r_entries, answer, extras, ban_cfg, q_cfg)| Case { class, pat, r_entries, answer, extras, ban_cfg, q_cfg })
             .boxed()
